@@ -62,6 +62,8 @@ def main(argv=None):
         return 2
     try:
         mod.run(rep, a.tier)
+        from .rules import crosscut
+        crosscut.run(rep, prop)
         if a.tier == "thorough":
             thorough_extras(rep, prop)
         if a.replay:
